@@ -507,6 +507,17 @@ def _check_script(buf, ops, out_lines):
                 k = window.index(0)
                 exp_ok = (k // 4 + 1) * 4 <= len(window)
             if exp_ok:
+                try:
+                    bytes(window[:k]).decode("utf-8")
+                    utf8_ok = True
+                except UnicodeDecodeError:
+                    utf8_ok = False
+                if not utf8_ok:
+                    # C11 returns the NUL-terminated *UTF-8* string: bytes that are not UTF-8 are a failure that consumes nothing
+                    if not res.startswith("Err(DecodeStringFailed(%d," % off) or noff != off:
+                        return "string() on bytes that are not UTF-8: %s offset %d->%d, expected Err(DecodeStringFailed(%d, ..)) and no progress" % (res, off, noff, off)
+                    off = noff
+                    continue
                 words = k // 4 + 1
                 txt = bytes(window[:k]).decode("ascii", "replace")
                 printable = all(0x20 <= c <= 0x7e and c not in (0x22, 0x5c) for c in window[:k])
@@ -560,6 +571,10 @@ def witness(failure, ctx):
     bufs.append([0x6f, 0x6b, 0, 0x58, 0x72, 0x75, 0x73, 0x74, 0, 0, 0, 0])
     bufs.append([0x6f, 0x6b, 0, 0x58, 0x72, 0x75, 0x73, 0x74, 0x21, 0x21, 0x21, 0])
     bufs.append(list(range(1, 17)))
+    # bytes after the NUL terminator (padding, following words) are not part of the string, whatever they are
+    bufs.append([0x61, 0x62, 0, 0, 0x80, 0, 0, 0])
+    bufs.append([0x61, 0, 0xff, 0xfe, 0xff, 0xff, 0xff, 0xff])
+    bufs.append([0, 0xc3, 0x28, 0xa0, 0xe2, 0x28, 0xa1, 0x80])
     seen, uniq = set(), []
     for b in bufs:
         if tuple(b) not in seen:
